@@ -7,14 +7,16 @@
 (*                        -> datagram decoder -> Marshal of the list        *)
 (*   Mode "faults": value -> Marshal -> fault(s) -> every decoder           *)
 (*                        -> (if accepted) Marshal -> datagram decoder      *)
-EXTENDS Codec, Domain, Faults, Json
+EXTENDS Codec, Domain, Faults, Variants, Json
 
-CONSTANTS Mode, KindsUnderTest, FaultDepth
+CONSTANTS Mode, KindsUnderTest, FaultDepth, MaxFrames, AllPTs
 VARIABLES pc
 mvars == << vars, pc >>
 
-Vals == IF Mode = "wire" THEN UNION { StarDom(k) : k \in KindsUnderTest }
-        ELSE UNION { Tiny(k) : k \in KindsUnderTest }
+Vals == CASE Mode \in {"wire", "foreign"} -> UNION { StarDom(k) : k \in KindsUnderTest }
+          [] Mode = "limits" -> LimitDom
+          [] Mode = "variants" -> VarDom \cup InflateDom
+          [] OTHER -> UNION { Tiny(k) : k \in KindsUnderTest }
 
 McInit == Init /\ pc = "build"
 
@@ -44,7 +46,59 @@ FaultNext ==
   \/ /\ pc = "reencode" /\ pk[2].k # "NONE" /\ Marshal(2, RefMarshal(pk[2])) /\ pc' = "redecode"
   \/ /\ pc = "redecode" /\ Datagram(2, 3, RefDatagram(buf[2])) /\ pc' = "done"
 
-McNext == IF Mode = "wire" THEN WireNext ELSE FaultNext
+\* limits: every boundary value through Marshal (C08)
+LimitsNext ==
+  \/ /\ pc = "build" /\ \E v \in Vals : Build(1, v)
+     /\ pc' = "marshal"
+  \/ /\ pc = "marshal" /\ Marshal(1, RefMarshal(pk[1])) /\ pc' = "done"
+     /\ Emit([script |-> "rt", v |-> pk[1]])
+
+\* variants: every alternative and every count-inflated encoding through the decoders (C04)
+VariantsNext ==
+  \/ /\ pc = "build" /\ \E v \in Vals : Build(1, v)
+     /\ pc' = "choose"
+  \/ /\ pc = "choose"
+     /\ \/ /\ \E b \in Variants(D0, pk[1]) : SetBuf(1, b)
+           /\ pc' = "variant"
+        \/ /\ pk[1] \in InflateDom /\ \E b \in Inflated(pk[1]) : SetBuf(1, b)
+           /\ pc' = "inflated"
+  \/ /\ pc \in {"variant", "inflated"} /\ Unmarshal(pk[1].k, 1, 2, RefDecode(pk[1].k, buf[1]))
+     /\ pc' = IF pc = "variant" THEN "vdone" ELSE "idone"
+     /\ Emit([script |-> "dec", bytes |-> buf[1]])
+
+\* foreign: every star-domain encoding to every decoder (C07)
+ForeignNext ==
+  \/ /\ pc = "build" /\ \E v \in Vals : Build(1, v)
+     /\ pc' = "marshal"
+  \/ /\ pc = "marshal" /\ Marshal(1, RefMarshal(pk[1])) /\ pc' = "done"
+     /\ Emit([script |-> "dec", bytes |-> buf[1]])
+
+\* dispatch: every (PT, FMT) with several bodies through the datagram decoder (C07)
+DispatchNext ==
+  \/ /\ pc = "build"
+     /\ \E pt \in DispatchPTs(AllPTs), c \in 0..31 : \E body \in DispatchBodies(pt, c) : SetBuf(1, DispatchFrame(pt, c, body))
+     /\ pc' = "decode"
+  \/ /\ pc = "decode" /\ Datagram(1, 2, RefDatagram(buf[1])) /\ pc' = "done"
+     /\ Emit([script |-> "dgram", bytes |-> buf[1]])
+
+\* datagram: sequences of frames (C06); the frames are kept in pk[3] as a RAW list
+FrameSet == ValidFrames \cup MalformedFrames \cup TailJunk
+\* complete (framed) pieces anywhere, incomplete tails only at the end
+FramedSet == { f \in FrameSet : Len(f) >= 4 /\ Len(f) = 4 * (HLen(f) + 1) }
+FrameSeqs == UNION { { s \in [1..n -> FrameSet] : \A i \in 1..(n - 1) : s[i] \in FramedSet } : n \in 1..MaxFrames }
+DgramNext ==
+  \/ /\ pc = "build"
+     /\ \E s \in FrameSeqs :
+          /\ buf' = [buf EXCEPT ![1] = FlatSeq(s)]
+          /\ pk' = [pk EXCEPT ![3] = [k |-> "FRAMES", frames |-> s]]
+          /\ UNCHANGED << prov, memo, fromdec, provdec >>
+     /\ pc' = "decode"
+  \/ /\ pc = "decode" /\ Datagram(1, 2, RefDatagram(buf[1])) /\ pc' = "done"
+     /\ Emit([script |-> "frames", frames |-> pk[3].frames])
+
+McNext == CASE Mode = "wire" -> WireNext [] Mode = "faults" -> FaultNext [] Mode = "limits" -> LimitsNext
+            [] Mode = "variants" -> VariantsNext [] Mode = "foreign" -> ForeignNext
+            [] Mode = "dispatch" -> DispatchNext [] Mode = "dgram" -> DgramNext
 McSpec == McInit /\ [][McNext]_mvars
 
 \* ---- invariants beyond Codec's ------------------------------------------
@@ -63,4 +117,22 @@ DestStable == (Mode = "wire" /\ pk[1].k # "NONE" /\ pk[2].k \notin {"NONE", "LIS
 FaultStable == (Mode = "faults" /\ pc = "done" /\ pk[2].k = "LIST" /\ (\A i \in 1..Len(pk[2].pkts) : WF(D0, pk[2].pkts[i]))) =>
   /\ pk[3].k = "LIST"
   /\ pk[3].pkts = [i \in 1..Len(pk[2].pkts) |-> Norm(D0, pk[2].pkts[i])]
+\* ---- limits (C08): every boundary value is decided, and never both ways ----
+LimitsDecided == (Mode = "limits" /\ pk[1].k # "NONE") => (WF(D0, pk[1]) # Over(pk[1]))
+LimitsRef == (Mode = "limits" /\ pc = "done") => ((prov[1].k # "NONE") = WF(D0, pk[1]))
+\* ---- variants (C04): every variant decodes to the value, every inflated encoding is refused
+VariantsDecode == (Mode = "variants" /\ pc = "vdone") => pk[2] = Norm(D0, pk[1])
+InflatedRefused == (Mode = "variants" /\ pc = "idone") => pk[2] = None
+\* ---- dispatch (C07): one packet of the registered kind, RawPacket verbatim, or an error
+DispatchTotal == (Mode = "dispatch" /\ pc = "done") =>
+  LET k == Kind(D0, HPT(buf[1]), HC(buf[1])) IN
+  /\ (pk[2].k = "LIST" => Len(pk[2].pkts) = 1 /\ pk[2].pkts[1].k = k)
+  /\ (k = "RAW" => pk[2].k = "LIST" /\ pk[2].pkts[1].bytes = buf[1])
+\* ---- datagram (C06): the result is the concatenation of the per-frame results, or an error
+Compose == (Mode = "dgram" /\ pc = "done") =>
+  LET fs == pk[3].frames
+      rs == [i \in 1..Len(fs) |-> DecDatagram(D0, fs[i])]
+  IN  IF \A i \in 1..Len(fs) : rs[i].st = "ok"
+      THEN pk[2] = [k |-> "LIST", pkts |-> FlatSeq([i \in 1..Len(fs) |-> rs[i].v])]
+      ELSE pk[2] = None
 =============================================================================
